@@ -165,6 +165,9 @@ Proof.
   apply andb_prop in H. destruct H as [_ H]. apply IH. exact H.
 Qed.
 
+Lemma na_case_body X body ft : forallb (na X) body = true -> forallb (na X) (case_body body ft) = true.
+Proof. intros H. destruct ft; simpl; [|exact H]. rewrite forallb_app, H. reflexivity. Qed.
+
 Lemma run_clauses_ext X (xl : list stmt -> env -> list Z -> res) :
   (forall l E out o E' out', xl l E out = Res o E' out' -> forallb (na X) l = true -> ext_of X E E') ->
   forall cls E out o E' out', run_clauses xl cls E out = Res o E' out' -> forallb (na X) cls = true -> ext_of X E E'.
@@ -174,8 +177,8 @@ Proof.
   - simpl in Hna. apply andb_prop in Hna. destruct Hna as [Hc Hcls].
     destruct c; try (inversion H; subst; apply ext_refl).
     simpl in Hc.
-    destruct (xl body E out) as [|o1 E1 out1] eqn:Hb; [discriminate|].
-    assert (X1 : ext_of X E (restore E E1)) by (apply ext_restore_ext; eapply Hx; eauto).
+    destruct (xl (case_body body ft) E out) as [|o1 E1 out1] eqn:Hb; [discriminate|].
+    assert (X1 : ext_of X E (restore E E1)) by (apply ext_restore_ext; eapply Hx; [exact Hb | apply na_case_body; exact Hc]).
     destruct o1; try (inversion H; subst; exact X1).
     destruct ft; [|inversion H; subst; exact X1].
     eapply ext_trans; [exact X1 | eapply IH; eauto].
